@@ -193,12 +193,26 @@ CLAIMED.update({
         "Trusted: Coq kernel; hand models Model/Magnet.v, Model/Uri.v (urllib.parse.quote_plus is standard library: modelled and compared, not verified), "
         "Model/Bencode.v (pyben); str/bytes collapsed to raw bytes; SHA-1/SHA-256 arbitrary in the theorems, hashlib in the search.",
         "DESIGN.md section 5 C11"),
+    "C20": (
+        "Coq proof (argparse-slice parser over the generated option table; config route; keyword route; landing fields; certified route-table checker with generated instance) + vm_compute correspondence + three-route search",
+        "Machine-checked proof, for EVERY option record over the ten documented create options (all values satisfying visible side conditions: no value "
+        "begins with '-', URLs are not existing paths, the content path exists), every subset, every documented flag spelling, every order of the flags and "
+        "every position of the content path -- including the positions where a list-valued flag swallows it and MetaFile.__init__ must recover it -- that the "
+        "model of the argparse slice driven by the table a translator regenerates from cli.py, followed by the model of MetaFile.__init__, yields exactly the "
+        "parameters of the record and the documented creator class; the same for the configuration route (cfg_route regenerated from "
+        "commands.parse_config_file, applied to the pairs ConfigParser delivers) and the keyword route; that each parameter lands in its documented metafile "
+        "field; and soundness of the executable checker route_table_ok with its instance on the generated tables by vm_compute (a renamed dest, a config key "
+        "stored under another keyword, a dropped recovery branch, a changed dispatch literal or interpolation setting make it false).  Tie: generated tables vs "
+        "introspection of the real parser and inspect.signature; run_parse / run_cfg / run_init / run_dispatch (vm_compute) vs parse_args, commands.create and "
+        "MetaFile.__init__ on generated inputs; search: three routes in fresh interpreters, strict decode, byte equality minus creation date, per-field landing.",
+        "Trusted: Coq kernel + vm_compute; translator gen/gen_cli.py (checked dynamically every run); hand model of the argparse slice (exact flags, store, "
+        "store_true, nargs='+', one optional positional; abbreviations and --flag=value only exercised end to end); ConfigParser's reading of the ini text is not "
+        "modelled (the theorem starts from the (key, value) pairs); the documented option table as transcribed in Model/Routes.v and harness/props/c20.py.",
+        "DESIGN.md section 5 C20"),
 })
 
 PENDING = {
     "C08": "work in progress, not a limit of the technique: the enumeration-irrelevance theorems exist (Proofs/CreatorsProofs.v) but Props/C08.v, the unit tie of Model/Creators.v and the metamorphic harness are not registered yet",
-    "C11": "work in progress, not a limit of the technique: Props/C11.v is proved (Model/Magnet.v, Model/Uri.v) but the correspondence harness is not registered yet",
-    "C20": "work in progress, not a limit of the technique: the CLI/config translators and the argparse slice model are not built yet",
 }
 
 
